@@ -151,3 +151,97 @@ Proof.
            rewrite (hq_regs _ _ H2). simpl. apply (hq_regs _ _ H1).
 Qed.
 End AddGrowFirst.
+
+(* ---- pvAddGrow of a set that already has buckets: the BucketParams are shared, a failing table allocation falls back to the
+        old table (overloadIfCannotGrow), a failing add to the new table destroys the new table only ---------------------- *)
+Section AddGrowMore.
+Variables (nb newCap : nat) (add_old : M unit) (add_new : nat -> M unit) (Pn : heap -> Prop).
+Hypothesis Hold : forall s, Pn (hp s) -> wp add_old s (fun _ _ => True) (fun s' => same_res (hp s) (hp s')).
+Hypothesis Hnew : forall tb s, Pn (hp s) -> alive (hp s) tb = true ->
+  wp (add_new tb) s (fun _ _ => True) (fun s' => same_res (hp s) (hp s')).
+Hypothesis Pn_heq : forall h h', heq h h' -> Pn h -> Pn h'.
+Hypothesis Pn_alloc : forall h n, wf h -> Pn h -> Pn (halloc h n).
+
+Theorem pv_add_grow_more_spec : forall s,
+  wf (hp s) -> Pn (hp s) ->
+  wp (pv_add_grow true nb newCap add_old add_new) s (fun _ _ => True) (fun s' => same_res (hp s) (hp s')).
+Proof.
+  intros s W HP. unfold pv_add_grow, pv_add_grow_gen, buckets_create. simpl.
+  set (h0 := hp s) in *. set (tb := next h0).
+  apply wp_bind. apply wp_try. apply wp_bind. apply wp_bind. apply wp_alloc.
+  { (* no memory for the bigger table: add to the old one instead *)
+    intros s1 H1. apply wp_bind. eapply wp_mono. { apply Hold. eapply Pn_heq; eauto. }
+    - intros _ s2 _. apply wp_ret. apply wp_ret. exact I.
+    - intros s2 [C1 C2 C3 C4]. split.
+      + intros l Al. rewrite C1 by (rewrite (hq_alive _ _ H1); auto). apply (hq_mem _ _ H1).
+      + intros b. rewrite C2. apply (hq_alive _ _ H1).
+      + intros b Ab. rewrite C3 by (rewrite (hq_alive _ _ H1); auto). apply (hq_bsize _ _ H1).
+      + intros r Hr. rewrite C4 by auto. apply (hq_regs _ _ H1). }
+  intros s1 H1. fold h0 tb in H1 |- *.
+  assert (W1 : wf (hp s1)) by (eapply wf_heq; [exact H1|]; apply wf_halloc; auto).
+  assert (P1 : Pn (hp s1)) by (eapply Pn_heq; [exact H1|]; apply Pn_alloc; auto).
+  assert (A1 : forall b, alive (hp s1) b = if b =? tb then true else alive h0 b) by (intros b; rewrite (hq_alive _ _ H1); reflexivity).
+  assert (M1 : forall l, mem (hp s1) l = if fst l =? tb then Raw else mem h0 l) by (intros l; rewrite (hq_mem _ _ H1); reflexivity).
+  assert (B1 : forall b, bsize (hp s1) b = if b =? tb then nb else bsize h0 b) by (intros b; rewrite (hq_bsize _ _ H1); reflexivity).
+  assert (Dead0 : forall b, tb <= b -> alive h0 b = false) by (intros; apply W; auto).
+  apply wp_bind. apply wp_try. apply wp_getr. apply wp_ret. apply wp_ret. simpl.
+  apply wp_bind. apply wp_try. eapply wp_mono. { apply Hnew; auto. rewrite A1, Nat.eqb_refl. reflexivity. }
+  - intros _ s3 _. apply wp_bind, wp_setr. intros s4 _. apply wp_bind, wp_setr. intros s5 _. apply wp_setr. intros s6 _. exact I.
+  - intros s3 [C1 C2 C3 C4]. unfold buckets_destroy. simpl.
+    apply wp_bind. apply wp_bind. apply wp_ret. apply wp_dealloc.
+    + rewrite C2, A1, Nat.eqb_refl. reflexivity.
+    + intros i _. rewrite C1 by (simpl; rewrite A1, Nat.eqb_refl; reflexivity). rewrite M1. simpl. rewrite Nat.eqb_refl. reflexivity.
+    + intros s4 H4. apply wp_throw. split.
+      * intros l Al. assert (L : (fst l =? tb) = false) by (apply Nat.eqb_neq; intro E; rewrite E, Dead0 in Al by lia; discriminate).
+        rewrite (hq_mem _ _ H4). simpl. rewrite C1 by (rewrite A1, L; auto). rewrite M1, L. reflexivity.
+      * intros b. rewrite (hq_alive _ _ H4). simpl. unfold updn. destruct (b =? tb) eqn:E.
+        { apply Nat.eqb_eq in E. subst. rewrite Dead0 by lia. reflexivity. }
+        rewrite C2, A1, E. reflexivity.
+      * intros b Ab. assert (L : (b =? tb) = false) by (apply Nat.eqb_neq; intro E; rewrite E, Dead0 in Ab by lia; discriminate).
+        rewrite (hq_bsize _ _ H4). simpl. rewrite C3 by (rewrite A1, L; auto). rewrite B1, L. reflexivity.
+      * intros r Hr. rewrite (hq_regs _ _ H4). simpl. rewrite C4 by auto. apply (hq_regs _ _ H1).
+Qed.
+End AddGrowMore.
+
+(* ---- pvRelocateItems (HashSet.h:1257-1308): after a growth the items of the old tables are migrated one by one; the whole
+        migration is wrapped in try { ... } catch (...) { /* no throw! */ }.  Whatever is observable through the container --
+        any function `obs` of the heap that each single migration step preserves and that does not depend on anything a FAILED
+        step may leave different (a failed step leaves every live block as it was) -- is the same after the call, wherever the
+        migration was interrupted; and the call itself never throws. --------------------------------------------------- *)
+Fixpoint run_steps (steps : list (M unit)) : M unit :=
+  match steps with [] => ret tt | m :: r => m ;; run_steps r end.
+Definition relocate_items (steps : list (M unit)) : M unit := try_catch (run_steps steps) (ret tt).
+
+Section Migration.
+Variable X : Type.
+Variable obs : heap -> X.
+Variable Inv : heap -> Prop.
+Hypothesis obs_same_res : forall h h', same_res h h' -> obs h' = obs h.
+Hypothesis Inv_same_res : forall h h', same_res h h' -> Inv h -> Inv h'.
+
+Definition step_ok (m : M unit) : Prop :=
+  forall s, Inv (hp s) -> wp m s (fun _ s' => obs (hp s') = obs (hp s) /\ Inv (hp s')) (fun s' => same_res (hp s) (hp s')).
+
+Lemma run_steps_spec : forall steps s,
+  Forall step_ok steps -> Inv (hp s) ->
+  wp (run_steps steps) s (fun _ s' => obs (hp s') = obs (hp s) /\ Inv (hp s')) (fun s' => obs (hp s') = obs (hp s) /\ Inv (hp s')).
+Proof.
+  intros steps s Hs. revert s. induction Hs as [|m r Hm Hr IH]; intros s HI; simpl.
+  - apply wp_ret. auto.
+  - apply wp_bind. eapply wp_mono. { apply Hm; auto. }
+    + intros _ s1 [O1 I1]. simpl. eapply wp_mono. { apply IH; auto. }
+      * intros _ s2 [O2 I2]. split; auto. congruence.
+      * intros s2 [O2 I2]. split; auto. congruence.
+    + intros s1 SR. simpl in SR. split. { apply obs_same_res; exact SR. } eapply Inv_same_res; [exact SR|exact HI].
+Qed.
+
+Theorem relocate_items_spec : forall steps s,
+  Forall step_ok steps -> Inv (hp s) ->
+  wp (relocate_items steps) s (fun _ s' => obs (hp s') = obs (hp s) /\ Inv (hp s')) (fun _ => False).
+Proof.
+  intros steps s Hs HI. unfold relocate_items. apply wp_try.
+  eapply wp_mono. { apply run_steps_spec; eauto. }
+  - intros u s' H; exact H.
+  - intros s' H. apply wp_ret. exact H.
+Qed.
+End Migration.
